@@ -332,6 +332,19 @@ theorem outRangeImpl_ext_eq (rp : Rp) (hinv : Inv rp) (hp : PadsOk rp.pads) (b e
   have hn48 : e - b ≤ 48 := by have := hinv.nb_le; omega
   exact outRangeImpl_ext_eq_gen rp hinv hp b e hb he exts hpos _ (genBytes_norep _ _ hn48 hv hnr hpos) maxlen sd pad
 
+/-- Nothing gathered for this range (whatever lies in stored paddings outside it): the extension-free output. -/
+theorem outRangeImpl_nogather (rp : Rp) (hp : PadsOk rp.pads) (b e : Nat) (hb : b < e) (he : e ≤ rp.nbFrames)
+    (hnil : gathered (rp.pads.take e) 0 b e = []) (maxlen : Int) (sd pad : Bool) :
+    outRangeImpl rp b e maxlen sd pad #[] =
+      if minSize sd ((selFrames rp b e).map List.length) > maxlen then .err .bufferTooSmall
+      else .ok (serialize sd (outPacket rp.toc (selFrames rp b e) maxlen sd pad)) := by
+  rw [outRangeImpl_gather rp hp b e hb he, hnil]
+  have hne : selFrames rp b e ≠ [] := by
+    intro h
+    have : (selFrames rp b e).length = e - b := by unfold Rp.nbFrames at he; simp [selFrames]; omega
+    rw [h] at this; simp at this; omega
+  simpa using emit_noext rp.toc _ hne maxlen sd pad
+
 theorem padRefs_of_count_zero (p : Bytes) (nf : Nat) (h : Ext.count p p.length nf = .ok 0) : padRefs p nf = [] := by
   unfold padRefs
   rw [h]
